@@ -186,7 +186,7 @@ func serve() int {
 			rs.StoreErr = w.StoreErr[0]
 		}
 		rb, _ := json.Marshal(rs)
-		fmt.Fprintf(os.Stdout, "@@RESP@@%s\n", rb)
+		fmt.Fprintf(os.Stdout, "\n@@RESP@@%s\n", rb)
 		if rs.Timeout {
 			return 3 // poisoned: let the parent restart a clean child
 		}
